@@ -38,6 +38,7 @@ type Req struct {
 	// free = a peer goroutine answers concurrently; defer = answered later (see Flush)
 	Mode string `json:"mode"`
 	Dup  bool   `json:"dup,omitempty"`  // the peer sends the answer twice
+	Rej  bool   `json:"rej,omitempty"`  // the peer rejects the request: the answer is an _error response (a response all the same: matched once, never twice)
 	AMF3 bool   `json:"amf3,omitempty"` // the peer answers with an AMF3 command message (type 17, leading 0 byte)
 	Pad  int    `json:"pad,omitempty"`  // bytes of padding strings in the request's command object (a request larger than the writer's buffer reaches the transport in several Write calls)
 }
@@ -88,9 +89,13 @@ type harness struct {
 	tail     []byte
 }
 
-func responseBytes(ch *rtmpref.Chunker, kind string, tid float64, amf3 bool) []byte {
+func responseBytes(ch *rtmpref.Chunker, kind string, tid float64, amf3 bool, rej ...bool) []byte {
 	var vals []amf0ref.Val
-	vals = append(vals, amf0ref.Val{K: amf0ref.String, Str: []byte("_result")}, amf0ref.Val{K: amf0ref.Number, Num: math.Float64bits(tid)})
+	name := "_result"
+	if len(rej) > 0 && rej[0] {
+		name = "_error"
+	}
+	vals = append(vals, amf0ref.Val{K: amf0ref.String, Str: []byte(name)}, amf0ref.Val{K: amf0ref.Number, Num: math.Float64bits(tid)})
 	if kind == "connect" {
 		vals = append(vals, amf0ref.Val{K: amf0ref.Object, Props: []amf0ref.Prop{{Key: []byte("fmsVer"), Val: amf0ref.Val{K: amf0ref.String, Str: []byte("FMS/3,5,3,888")}}}},
 			amf0ref.Val{K: amf0ref.Object, Props: []amf0ref.Prop{{Key: []byte("code"), Val: amf0ref.Val{K: amf0ref.String, Str: []byte("NetConnection.Connect.Success")}}}})
@@ -124,7 +129,7 @@ func (h *harness) queueLocked(kind string, tid float64, amf3 ...bool) {
 	} else {
 		h.expected = append(h.expected, expect{tid, "error"})
 	}
-	h.rd.Write(responseBytes(h.ch, kind, tid, len(amf3) > 0 && amf3[0]))
+	h.rd.Write(responseBytes(h.ch, kind, tid, len(amf3) > 0 && amf3[0], len(amf3) > 1 && amf3[1]))
 	h.cond.Broadcast()
 }
 
@@ -182,9 +187,9 @@ func (w *wr) Write(p []byte) (int, error) {
 	h.model[r.Tid] = r.Kind
 	switch r.Mode {
 	case "inside":
-		h.queueLocked(r.Kind, r.Tid, r.AMF3)
+		h.queueLocked(r.Kind, r.Tid, r.AMF3, r.Rej)
 		if r.Dup {
-			h.queueLocked(r.Kind, r.Tid, r.AMF3)
+			h.queueLocked(r.Kind, r.Tid, r.AMF3, r.Rej)
 		}
 		if e := h.waitDecodedLocked(len(h.expected)); e != nil {
 			w.err = e
@@ -296,9 +301,9 @@ func runCase(c Case) (stInside, stOutOfOrder bool, err error) {
 		for i := range h.peerCh {
 			h.mu.Lock()
 			r := c.Reqs[i]
-			h.queueLocked(r.Kind, r.Tid, r.AMF3)
+			h.queueLocked(r.Kind, r.Tid, r.AMF3, r.Rej)
 			if r.Dup {
-				h.queueLocked(r.Kind, r.Tid, r.AMF3)
+				h.queueLocked(r.Kind, r.Tid, r.AMF3, r.Rej)
 			}
 			h.mu.Unlock()
 		}
@@ -358,9 +363,9 @@ func runCase(c Case) (stInside, stOutOfOrder bool, err error) {
 		case "inside":
 			stInside = true
 		case "after":
-			h.queueLocked(r.Kind, r.Tid, r.AMF3)
+			h.queueLocked(r.Kind, r.Tid, r.AMF3, r.Rej)
 			if r.Dup {
-				h.queueLocked(r.Kind, r.Tid, r.AMF3)
+				h.queueLocked(r.Kind, r.Tid, r.AMF3, r.Rej)
 			}
 			err = h.waitDecodedLocked(len(h.expected))
 		case "defer":
@@ -384,9 +389,9 @@ func runCase(c Case) (stInside, stOutOfOrder bool, err error) {
 			}
 			j := pending[k]
 			pending = append(pending[:k], pending[k+1:]...)
-			h.queueLocked(c.Reqs[j].Kind, c.Reqs[j].Tid, c.Reqs[j].AMF3)
+			h.queueLocked(c.Reqs[j].Kind, c.Reqs[j].Tid, c.Reqs[j].AMF3, c.Reqs[j].Rej)
 			if c.Reqs[j].Dup {
-				h.queueLocked(c.Reqs[j].Kind, c.Reqs[j].Tid, c.Reqs[j].AMF3)
+				h.queueLocked(c.Reqs[j].Kind, c.Reqs[j].Tid, c.Reqs[j].AMF3, c.Reqs[j].Rej)
 			}
 		}
 		h.mu.Unlock()
@@ -408,9 +413,9 @@ func runCase(c Case) (stInside, stOutOfOrder bool, err error) {
 		}
 		j := pending[k]
 		pending = append(pending[:k], pending[k+1:]...)
-		h.queueLocked(c.Reqs[j].Kind, c.Reqs[j].Tid, c.Reqs[j].AMF3)
+		h.queueLocked(c.Reqs[j].Kind, c.Reqs[j].Tid, c.Reqs[j].AMF3, c.Reqs[j].Rej)
 		if c.Reqs[j].Dup {
-			h.queueLocked(c.Reqs[j].Kind, c.Reqs[j].Tid, c.Reqs[j].AMF3)
+			h.queueLocked(c.Reqs[j].Kind, c.Reqs[j].Tid, c.Reqs[j].AMF3, c.Reqs[j].Rej)
 		}
 	}
 	if err == nil {
@@ -485,7 +490,7 @@ func normalize(c *Case) {
 
 var recSched = ev.New(prop, "schedules",
 	"rapid-generated histories of 1-30 connect/createStream requests sent by a writer goroutine while a reader goroutine decodes; per request the harness transport places the peer's _result "+
-		"inside the transport Write (and waits for its decode), after WritePacket returned, from a free-running peer goroutine, or deferred and flushed later in a drawn order; duplicates and unrelated commands mixed in; "+
+		"inside the transport Write (and waits for its decode), after WritePacket returned, from a free-running peer goroutine, or deferred and flushed later in a drawn order; duplicates, _error answers (also duplicated) and unrelated commands mixed in; "+
 		"model = requests whose bytes reached the transport; race detector on; non-trivial = an 'inside' step or deferred answers delivered out of order").
 	Require("inside", "out-of-order")
 
@@ -505,6 +510,12 @@ func check(rec *ev.Recorder, c Case) error {
 	if ooo {
 		cl = append(cl, "out-of-order")
 	}
+	for _, r := range c.Reqs {
+		if r.Rej && r.Dup {
+			cl = append(cl, "rejected-then-duplicate")
+			break
+		}
+	}
 	rec.Case(len(cl) > 0, ev.Hash(c), cl, func() any { return c })
 	return err
 }
@@ -519,6 +530,7 @@ func TestSchedules(t *testing.T) {
 				Dup:  rapid.IntRange(0, 5).Draw(t, "dup") == 0}
 			r.Tid = rapid.SampledFrom([]float64{1, 2, 3, 4, 5, 0.5, 1e300, 4294967296, 1.5, 2.5, 2.25, 9.3e18, 1.8e19, 1e19}).Draw(t, "tid")
 			r.AMF3 = rapid.IntRange(0, 4).Draw(t, "amf3") == 0
+			r.Rej = rapid.IntRange(0, 3).Draw(t, "rej") == 0 && r.Kind == "createStream" // the connect response decoder accepts the name _result only: observed, not judged
 			if rapid.IntRange(0, 5).Draw(t, "big") == 0 {
 				r.Pad = rapid.SampledFrom([]int{100, 3900, 4096, 8100, 8200, 12000, 70000}).Draw(t, "pad")
 			}
